@@ -33,6 +33,7 @@ def run(ck):
     mt = F.fn(CF + "::Rule::matches")
     ck.touch(pr, ct, fl, mt)
     shortcut_matching(ck, mt)
+    suffix_vocabulary(ck, pr)
     parse_rules(ck, pr, ct)
     evaluate(ck, fl, mt)
     type_table(ck, pr, mt)
@@ -488,3 +489,34 @@ def shortcut_matching(ck, mt):
               "Rule::matches decides a wildcard rule by %s && %s with no test of the category's length: a category shorter than prefix + suffix passes on overlapping characters "
               "(rule `ab*ba=false`, category `aba`), which the pattern ^ab.*ba$ does not match" % (describe(sw)[:40], describe(ew)[:40]) if not lens else
               "Rule::matches has a prefix-and-suffix short cut with a length test (%s) this rule does not evaluate" % describe(lens[0])[:50], key="Rule::matches|overlap")
+
+
+def suffix_vocabulary(ck, pr):
+    """C15-O7: the type suffixes are .debug .info .warning .critical.  When parseRules() recognises the suffix by asking
+    stringToQtMsgType() about a piece of the rule text that the line grammar does not restrict to those four words, every key of that
+    helper's table is a suffix — and the table also knows `fatal` (it serves %{if-fatal})."""
+    F = ck.facts
+    ck.rule("C15-O7", "the type-suffix vocabulary of a rule is exactly debug|info|warning|critical: a suffix is recognised through the line grammar's alternation, not by looking an unrestricted piece of the rule up in stringToQtMsgType")
+    calls = [n for n in pr.calls() if name_is(n.get("callee"), "QtLogger::stringToQtMsgType") and n.get("args")]
+    st = F.fn("QtLogger::stringToQtMsgType", optional=True)
+    keys = set()
+    if st is not None:
+        dn = st.find(lambda n: n.get("k") == "decl")
+        if dn and dn[0].get("vars"):
+            keys = {const_str(k) for k, v in initlist_pairs(dn[0]["vars"][0].get("init"))} - {None}
+    DOC = {"debug", "info", "warning", "critical"}
+    n = 0
+    for c in calls:
+        a = skip_copies(deref_local(pr, c["args"][0]))
+        from_grammar = any(is_call(x, ("QRegularExpressionMatch::captured",)) for x in walk(a))
+        if from_grammar:
+            continue       # restricted by the alternation of the line grammar (C15-O4 compares it with the table)
+        n += 1
+        cut = any(is_call(x, ("QString::mid", "QString::section", "QString::right", "QString::split", "QStringRef::toString", "QString::midRef")) for x in walk(a)) or a.get("k") == "ref"
+        extra = sorted(keys - DOC)
+        ck.ob("C15-O7", sitestr(pr, c), False if (cut and extra) else None,
+              "parseRules() takes a piece of the rule text (%s) for a type suffix whenever stringToQtMsgType() knows it: besides the documented four that is %s — a rule `db.%s=false` becomes a typed rule on "
+              "category `db` instead of a rule on category `db.%s`" % (describe(a)[:40], extra, extra[0], extra[0]) if (cut and extra) else
+              "parseRules() recognises the type suffix through stringToQtMsgType(%s)" % describe(a)[:40], key="parseRules|suffix-vocabulary")
+    if not n:
+        ck.ob("C15-O7", sitestr(pr), True, "the type suffix is recognised by the line grammar only", key="parseRules|suffix-vocabulary")
